@@ -1279,6 +1279,15 @@ func (tf *transformer) useAllImports(file *ast.File) {
 // obj may belong to curPkg or any dependency, found via [listPackage]. tf.fieldToStruct
 // must be populated when obj may be a struct field.
 func (tf *transformer) obfuscatedObjectName(obj types.Object) (string, bool) {
+	if vr, ok := obj.(*types.Var); ok && vr.Embedded() {
+		// An embedded field is named after its type, so it must be obfuscated
+		// as that type, for any caller; see also transformGoFile.
+		tname := namedType(vr.Type())
+		if tname == nil {
+			return "", false // unnamed type (probably a basic type, e.g. int)
+		}
+		obj = tname
+	}
 	pkg := obj.Pkg()
 	if pkg == nil {
 		return "", false // universe scope
